@@ -2,10 +2,13 @@
 `Methods::raw_json_request` / `Methods::subscribe` (harness/src/bin/sinkbp.rs, no server) vs coq/Model/SinkQueue.v
 (modelrun/sinkbp_driver.ml).
 
-Case line:  `<cap> - <raw|sub> | op op ...`   (ops: s<x> t<x> o<x> fresh message x through send / try_send /
+Case line:  `<cap> <-|s<hex>> <raw|sub> | op op ...`   (ops: s<x> t<x> o<x> fresh message x through send / try_send /
 send_timeout, kept in slot x when it is handed back; Rs<k> Rt<k> Ro<k> re-send of slot k; r recv; c close).
-The implementation draws the subscription id at random and reports it as the first token `id=<n>`; the model is run
-second, on the same line with `-` replaced by that id."""
+`-`: the implementation draws a numeric subscription id at random and reports it as the first token `id=<n>`; the model
+is run second, on the same line with `-` replaced by that id.
+`s<hex>`: a STRING subscription id (hex of its UTF-8 text) handed out by a custom IdProvider that the harness installs
+(SubscriptionState { id_provider, .. }, raw mode only); both sides report `id=j<hex of the id as JSON text>` = the
+`result` of the accepting response.  The pool STRING_IDS holds ids that need JSON escaping."""
 import json, os
 import vlib
 
@@ -15,6 +18,33 @@ METHOD = "note"
 def impl_bin():
     """VERIF_SINKBP_BIN overrides the implementation binary (a harness copy built against another tree)."""
     return os.environ.get("VERIF_SINKBP_BIN") or vlib.rust_bin("sinkbp")
+
+
+# string subscription ids a custom IdProvider may hand out (jsonrpsee_core::traits::IdProvider -> SubscriptionId::Str)
+STRING_IDS = [
+    "plain-id_01",
+    "rack\\node-0",                # backslash followed by a letter that is a JSON escape (\n)
+    "DOMAIN\\user",                # backslash followed by a letter that is NOT a JSON escape (\u needs 4 hex digits)
+    'a"b',
+    "line\nfeed",
+    "tab\there",
+    "\u00e9",                       # e acute, two bytes of UTF-8
+    "sub-\U0001F600-\u4e16",       # emoji (4 bytes) + CJK (3 bytes)
+    "",
+    "x" * 199 + "\\",              # 200 characters, the last one needs escaping
+    "\b", "\f", "\n", "\r", "\t", '"', "\\",      # the seven characters with a short escape
+    "\x01", "a\x1fb", "\x00",      # need \u00XX
+    "\x7f",                        # DEL: not escaped by serde
+    "/",                           # solidus: may be escaped in JSON, serde does not
+    "\\u0041",                     # the TEXT backslash-u-0-0-4-1: unescaped it would read back as "A"
+    '\\"',                         # backslash + quote
+    "1000",                        # a string that looks like a number: must stay a string
+    " lead and trail ",
+]
+
+
+def sid_field(s):
+    return "s" + s.encode().hex()
 
 
 # ------------------------------------------------------------------------------------------------------ generator
@@ -103,12 +133,40 @@ def _walk(rng, cap, n):
     return ops
 
 
+def _targeted_short():
+    """the seams of the fill/fail/recv/re-send family in their shortest form, one script per (capacity, failing path,
+    re-send path, close or not): used with every string id of the pool"""
+    out = []
+    for cap in (1, 2):
+        for fail in "to":
+            for rp in "sto":
+                for close in (False, True):
+                    ops = ["s%d" % (i + 1) for i in range(cap)] + [fail + str(cap + 1), "r"]
+                    if close:
+                        ops.append("c")
+                    ops += ["R%s%d" % (rp, cap + 1)] + ["r"] * (cap + 1)
+                    out.append((cap, ops))
+    return out
+
+
 def gen_cases(ctx):
     rng = ctx.rng
-    cases = []     # (family, cap, mode, ops)
+    cases = []     # (family, cap, mode, ops) with a numeric id drawn by the library | (family, cap, mode, ops, string id)
     short = _exhaustive(3)
     for cap in (1, 2):
         cases += [("exhaustive<=3", cap, "raw", ops) for ops in short]
+    # string ids: every id of the pool with all scripts of <= 2 ops and with the short targeted scripts; all scripts of
+    # <= 3 ops with the ids of the pool in turn
+    two = [o for o in short if len(o) <= 2]
+    tshort = _targeted_short()
+    for sid in STRING_IDS:
+        cases += [("string-id:exhaustive<=2", 1, "raw", ops, sid) for ops in two]
+        cases += [("string-id:fill-fail-recv-resend", cap, "raw", ops, sid) for cap, ops in tshort]
+    n = 0
+    for cap in (1, 2):
+        for ops in short:
+            cases.append(("string-id:exhaustive<=3", cap, "raw", ops, STRING_IDS[n % len(STRING_IDS)]))
+            n += 1
     four = [o for o in _exhaustive(4) if len(o) == 4]
     if ctx.thorough or ctx.search_mode:
         for cap in (1, 2):
@@ -123,10 +181,15 @@ def gen_cases(ctx):
         ctx.extra["sinkbp_exhaustive"] = "all scripts of <= 3 ops for cap 1 and 2; 4-op scripts sampled"
     for i, (cap, ops) in enumerate(_targeted(ctx)):
         cases.append(("fill-fail-recv-resend", cap, "sub" if i % 4 == 3 else "raw", ops))
+        if i % ctx.scale(12, 3) == 1:
+            cases.append(("string-id:fill-fail-recv-resend", cap, "raw", ops, STRING_IDS[(i // 3) % len(STRING_IDS)]))
     for i in range(ctx.scale(400, 8000)):
         cap = rng.choice([1, 1, 2, 2, 3, 4])
         cases.append(("random", cap, "sub" if i % 4 == 3 else "raw", _walk(rng, cap, rng.randrange(5, ctx.scale(28, 48)))))
-    return [(fam, "%d - %s | %s" % (cap, mode, " ".join(ops))) for fam, cap, mode, ops in cases]
+    for i in range(ctx.scale(100, 2000)):
+        cap = rng.choice([1, 1, 2, 2, 3, 4])
+        cases.append(("string-id:random", cap, "raw", _walk(rng, cap, rng.randrange(5, ctx.scale(28, 48))), rng.choice(STRING_IDS)))
+    return [(c[0], "%d %s %s | %s" % (c[1], sid_field(c[4]) if len(c) > 4 else "-", c[2], " ".join(c[3]))) for c in cases]
 
 
 # ------------------------------------------------------------------------------------------------- direct oracle
@@ -141,12 +204,25 @@ def _plain_number(v):
     return isinstance(v, int) and not isinstance(v, bool)
 
 
+def _same_id(a, b):
+    """decoded subscription ids are equal: both plain numbers or both strings, and the same value"""
+    if _plain_number(a) and _plain_number(b):
+        return a == b
+    return isinstance(a, str) and isinstance(b, str) and a == b
+
+
+def _strict_json(text):
+    """RFC 8259 as a client reads it: duplicate keys refused, raw control characters inside strings refused"""
+    return json.loads(text, object_pairs_hook=_pairs, strict=True)
+
+
 def _frame(tok, sid, produced):
-    """-> (payload or None, failure key or None, detail) for one received frame token"""
-    if tok.startswith("F"):
+    """-> (payload or None, failure key or None, detail) for one received frame token (or C<hex>: the full text of a
+    handed-back message); `sid` is the DECODED id of the accepting response"""
+    if tok.startswith(("F", "C")):
         try:
             text = bytes.fromhex(tok[1:]).decode()
-            v = json.loads(text, object_pairs_hook=_pairs)
+            v = _strict_json(text)
         except Exception as e:  # noqa
             return None, "sink-item-not-as-produced", "frame is not JSON (%r): %s" % (e, tok[:200])
         if not (isinstance(v, dict) and set(v) == {"jsonrpc", "method", "params"} and v["jsonrpc"] == "2.0"
@@ -165,8 +241,8 @@ def _frame(tok, sid, produced):
         return None, "sink-item-not-as-produced", "undecodable frame: " + tok[:200]
     if not _plain_number(res) or res not in produced:
         return None, "sink-item-not-as-produced", "result %s is not a payload the handler produced %s: %s" % (json.dumps(res)[:200], sorted(produced), text[:300])
-    if not _plain_number(fsid) or fsid != sid or meth != METHOD:
-        return res, "sink-item-foreign-id-or-method", "subscription %r / method %r, expected %d / %s" % (fsid, meth, sid, METHOD)
+    if not _same_id(fsid, sid) or meth != METHOD:
+        return res, "sink-item-foreign-id-or-method", "subscription %r / method %r, expected %r / %s: %s" % (fsid, meth, sid, METHOD, text[:300])
     return res, None, None
 
 
@@ -176,19 +252,47 @@ def parse_case(line):
     return int(cap), mode, script.split()
 
 
+def configured_id(line):
+    """the string id the case line configures (None: the library draws a number)"""
+    f = line.partition("|")[0].split()[1]
+    return bytes.fromhex(f[1:]).decode() if f.startswith("s") else None
+
+
+def decode_id_token(tok):
+    """`id=<n>` | `id=j<hex of JSON text>` -> the decoded id of the accepting response"""
+    t = tok[3:]
+    if t.startswith("j"):
+        v = _strict_json(bytes.fromhex(t[1:]).decode())
+        if not isinstance(v, str):
+            raise ValueError("not a string")
+        return v
+    if not t.isdigit():
+        raise ValueError("not a number")
+    return int(t)
+
+
 def oracle(line, out):
     """C04 on the implementation's output alone.  Returns [(key, detail)]."""
-    if out.startswith(("PANIC", "CRASH", "?")):
+    if out.startswith("PANIC"):
+        try:
+            msg = bytes.fromhex(out[5:].strip()).decode(errors="replace")
+        except ValueError:
+            msg = out
+        return [("sink-panic", "a task panicked while the script ran: " + msg[:300])]
+    if out.startswith(("CRASH", "?")):
         return [("sinkbp-harness-trouble", out[:300])]
     cap, mode, ops = parse_case(line)
     toks = out.split()
     if not toks or not toks[0].startswith("id=") or len(toks) != len(ops) + 1:
         return [("sinkbp-harness-trouble", "expected id + %d tokens: %s" % (len(ops), out[:300]))]
     try:
-        sid = int(toks[0][3:])
-    except ValueError:
-        return [("sinkbp-harness-trouble", "non-numeric subscription id: " + toks[0])]
+        sid = decode_id_token(toks[0])
+    except Exception as e:  # noqa
+        return [("sink-accepting-response-id-undecodable", "%r: %s" % (e, toks[0][:300]))]
     fails = []
+    want = configured_id(line)
+    if want is not None and not _same_id(sid, want):
+        fails.append(("sink-accepted-id-not-the-provider's", "accepting response names %r, the IdProvider returned %r" % (sid, want)))
     book = {}            # slot -> payload of the message the handler keeps there
     produced = set()
     ok_seq = []          # payloads of the sends that reported ok, in order of success
@@ -205,6 +309,18 @@ def oracle(line, out):
         if len(ok_seq) - len(rcv) > cap:
             fails.append(("sink-queue-over-capacity", "op %d: %d sends accepted, %d frames received, capacity %d" % (i, len(ok_seq), len(rcv), cap)))
 
+    def handed_back(i, tok, x):
+        """the message a failed send hands back is the handler's payload x, or the full notification of x with the
+        subscription's own id and method"""
+        m = tok.partition("=")[2]
+        if m.startswith("N"):
+            if m[1:] != str(x).encode().hex():
+                fails.append(("sink-item-not-as-produced", "op %d: handed back %s, produced %d" % (i, m[:80], x)))
+        else:
+            y, key, detail = _frame(m, sid, {x})
+            if key:
+                fails.append((key, "op %d (handed back): %s" % (i, detail)))
+
     for i, (op, tok) in enumerate(zip(ops, toks[1:])):
         kind = tok.split("=")[0]
         if op[0] in "sto":
@@ -214,6 +330,7 @@ def oracle(line, out):
                 succeeded(x, i)
             elif kind in ("full", "timeout", "closed"):
                 book[x] = x
+                handed_back(i, tok, x)
             elif kind != "wouldblock":
                 fails.append(("sinkbp-harness-trouble", "op %d %s -> %s" % (i, op, tok[:80])))
         elif op[0] == "R":
@@ -227,6 +344,7 @@ def oracle(line, out):
                 succeeded(x, i)
             elif kind in ("full", "timeout", "closed"):
                 book[k] = x
+                handed_back(i, tok, x)
             elif kind != "wouldblock":
                 fails.append(("sinkbp-harness-trouble", "op %d %s -> %s" % (i, op, tok[:80])))
         elif op == "c":
@@ -262,8 +380,8 @@ def model_lines(lines, impl_out):
         t = a.split(" ", 1)[0]
         sid = t[3:] if t.startswith("id=") and t[3:].isdigit() else "0"
         head, _, script = l.partition("|")
-        cap, _, mode = head.split()
-        res.append("%s %s %s |%s" % (cap, sid, mode, script))
+        cap, given, mode = head.split()
+        res.append("%s %s %s |%s" % (cap, given if given.startswith("s") else sid, mode, script))
     return res
 
 
